@@ -1,1 +1,69 @@
-fn main() {}
+//! concmon binary: native stress runs of the C17 / C19 scenarios.
+use concmon::{pool, shared, uf, Outcome};
+use serde_json::json;
+
+fn main() {
+    let argv: Vec<String> = std::env::args().collect();
+    let mut seed = 1u64;
+    let mut tier = "quick".to_string();
+    let mut out_path = String::new();
+    let mut n: Option<u64> = None;
+    let mon = argv.get(1).cloned().unwrap_or_default();
+    let mut i = 2;
+    while i + 1 < argv.len() {
+        match argv[i].as_str() {
+            "--seed" => seed = argv[i + 1].parse().unwrap(),
+            "--tier" => tier = argv[i + 1].clone(),
+            "--out" => out_path = argv[i + 1].clone(),
+            "--n" => n = Some(argv[i + 1].parse().unwrap()),
+            _ => {}
+        }
+        i += 2;
+    }
+    let quick = tier != "thorough";
+    if std::env::var("VERIF_SHOW_PANICS").is_err() { std::panic::set_hook(Box::new(|_| {})); }
+    let mut o = Outcome::default();
+    let rule;
+    match mon.as_str() {
+        "uf-seq" => {
+            rule = "sequential union-find vs partition model after every op: exhaustive over all op sequences (union/find/find_naive/reset) for small id spaces, random beyond; distinct = distinct random sequences";
+            for (nn, len) in if quick { vec![(2, 5), (3, 4), (4, 3)] } else { vec![(2, 7), (3, 5), (4, 4), (5, 3)] } {
+                o.merge(uf::seq_exhaustive(nn, len));
+            }
+            o.merge(uf::seq_random(seed, n.unwrap_or(if quick { 20000 } else { 400000 })));
+        }
+        "uf-conc" => {
+            rule = "recorded concurrent histories (2-8 threads, hot id space 4-32, cold ids up to 4096 forcing resizes, perturbation hooks armed) checked against necessary conditions of linearizability for the monotone union-find (final closure, min representative, link-once, per-query [invoked, returned] bounds); distinct = distinct thread interleaving orders with real overlap";
+            o.merge(uf::concurrent_batch(seed, n.unwrap_or(if quick { 3000 } else { 60000 }), false));
+        }
+        "pool" => {
+            rule = "seeded spawn trees (nested scopes, tasks spawning tasks, panicking tasks, depth-70 chains past the inline-help limit) on pools of 1-16 threads: every task exactly once, finished before its scope returned, panic re-raised; logical deadlock detector on hook counters; distinct = (threads, kind, size, seed class)";
+            o.merge(pool::pool_batch(seed, n.unwrap_or(if quick { 1500 } else { 40000 }), false));
+        }
+        "shared" => {
+            rule = "ReadOptimizedLock torn-write/overlap detectors, ConcurrentVec push/read integrity, ParallelVecWriter ranged writes, NotificationList notify->reset exactly-once, all with perturbation hooks armed; distinct = distinct scenario parameterisations";
+            o.merge(shared::shared_batch(seed, n.unwrap_or(if quick { 1200 } else { 40000 }), false));
+        }
+        _ => {
+            eprintln!("usage: concmon uf-seq|uf-conc|pool|shared [--seed N] [--tier T] [--out F] [--n N]");
+            std::process::exit(2);
+        }
+    }
+    o.count("perturbation_points_hit", concmon::hook_hits());
+    let j = json!({
+        "property": mon,
+        "evaluations": o.evaluations,
+        "distinct": o.distinct.iter().collect::<Vec<_>>(),
+        "rule": rule,
+        "samples": o.samples,
+        "counters": o.counters,
+        "violations": o.violations.iter().map(|(s, d, r)| json!({"sig": s, "detail": d, "replay": r})).collect::<Vec<_>>(),
+        "inconclusive": o.inconclusive,
+        "notes": Vec::<String>::new(),
+    });
+    if out_path.is_empty() {
+        println!("{}", serde_json::to_string_pretty(&j).unwrap());
+    } else {
+        std::fs::write(out_path, serde_json::to_string(&j).unwrap()).unwrap();
+    }
+}
